@@ -863,6 +863,47 @@ def f(x: FLOAT[...], y: FLOAT[...], n: INT64):
 ''', ["x:F:2 y:F:2 n:I:"])
 
 # ---------------------------------------------------------------- sub-function calls
+# ---------------------------------------------------------------- the same subscript constants in several loop bodies / branches
+P("slices_in_two_loops", '''
+@script()
+def f(x: FLOAT[...], n: INT64):
+    a = x[0:2]
+    for i in range(n):
+        a = a + x[0:2]
+    b = x[1:3]
+    for j in range(n):
+        b = b * x[0:2] + x[1:3]
+    return a + b
+''', ["x:F:4 n:I:"])
+
+P("slices_in_loop_then_branch_then_loop", '''
+@script()
+def f(x: FLOAT[...], n: INT64, c: BOOL):
+    s = x[0:2, 1]
+    for i in range(n):
+        s = s + x[0:2, 1]
+    if c:
+        t = s + x[1:3, 0]
+    else:
+        t = s - x[0:2, 1]
+    for j in range(n):
+        t = t + x[1:3, 0] + x[0:2, 1]
+    return t
+''', ["x:F:3,3 n:I: c:B:"])
+
+P("slices_in_nested_loops", '''
+@script()
+def f(x: FLOAT[...], n: INT64):
+    acc = x[0:1]
+    for i in range(n):
+        for j in range(2):
+            acc = acc + x[0:1]
+        acc = acc * x[1:2]
+    for k in range(2):
+        acc = acc - x[0:1]
+    return acc
+''', ["x:F:3 n:I:"])
+
 # ---------------------------------------------------------------- a Python constant chosen by an If is still a constant
 P("literal_merged_by_if", '''
 @script()
